@@ -209,7 +209,9 @@ func (m *Machine) execFrom(fr *Frame, b *ssa.BasicBlock, prev *ssa.BasicBlock) V
 					m.stats.MaxLoop[key] = n
 				}
 			}
-			if n > m.cfg.LoopBound {
+			if n > m.cfg.LoopBound && m.path.initMode > 0 && n < 1<<20 {
+				// package initialisers run on concrete data; the harness's unwinding bound is about the code under test
+			} else if n > m.cfg.LoopBound {
 				if m.cfg.Opts["unwind"] != "abort" && m.meta(fr.fn).inRepo && !strings.Contains(fr.fn.Name(), "zz") {
 					// unwind=violation: the unwinding bound is the property (a loop of the code under
 					// test that takes more than LoopBound iterations is a hang); confirmed natively
